@@ -106,6 +106,11 @@ def eval_adverb_each_index(f, a, op, backend):
     return f(backend.kg_asarray([0, a]))
 
 
+def _chars(a):
+    """a string operand is a list of characters for every adverb (iterating a Python str yields one-letter strings)"""
+    return bknp.asarray([KGChar(c) for c in a], dtype=object) if isinstance(a, str) else a
+
+
 def eval_adverb_each2(f, a, b):
     """
 
@@ -127,7 +132,7 @@ def eval_adverb_each2(f, a, b):
         return bknp.asarray([]) if is_list(a) or is_list(b) else ""
     if is_atom(a) and is_atom(b):
         return f(a,b)
-    r = bknp.asarray([f(x,y) for x,y in zip(a,b)])
+    r = bknp.asarray([f(x,y) for x,y in zip(_chars(a),_chars(b))])
     return ''.join(r) if r.dtype == '<U1' else r
 
 
@@ -243,7 +248,7 @@ def eval_adverb_over(f, a, op, backend):
             return np_backend.max(a)
         elif safe_eq(op.a, ',') and np_backend.isarray(a) and a.dtype != 'O':
             return a if a.ndim == 1 else np_backend.concatenate(a, axis=0)
-    return functools.reduce(f, a)
+    return functools.reduce(f, _chars(a))
 
 
 def eval_adverb_over_neutral(f, a, b):
@@ -276,6 +281,7 @@ def eval_adverb_over_neutral(f, a, b):
         return a
     if is_atom(b):
         return f(a,b)
+    b = _chars(b)
     return functools.reduce(f,b[1:],f(a,b[0]))
 
 
@@ -307,7 +313,7 @@ def eval_adverb_scan_over_neutral(f, a, b, backend):
     if is_atom(b):
         b = [b]
     b = [f(a,b[0]), *b[1:]]
-    r = list(itertools.accumulate(b,f))
+    r = list(itertools.accumulate(_chars(b),f))
     q = backend.kg_asarray(r)
     r = [a, *q]
     return backend.kg_asarray(r)
@@ -330,7 +336,7 @@ def eval_adverb_scan_over(f, a, op, backend):
             return np_backend.multiply.accumulate(a)
         elif safe_eq(op.a, '%') and hasattr(np_backend.divide, 'accumulate'):
             return np_backend.divide.accumulate(a)
-    r = list(itertools.accumulate(a, f))
+    r = list(itertools.accumulate(_chars(a), f))
     return backend.kg_asarray(r)
 
 
